@@ -8,6 +8,12 @@ From RV Require Import Gen.EnumTables.
 From RV Require Import Gen.WriterNum.
 From RV Require Import Model.WriteNum.
 From RV Require Import Proofs.WriteNum.
+From RV Require Import Gen.IdSites.
+From RV Require Import Model.RoundTrip.
+From RV Require Import Proofs.RoundTrip.
+From RV Require Import Gen.ElisionTables.
+From RV Require Import Model.Elision.
+From RV Require Import Proofs.Elision.
 From Coq Require Import String List Bool ZArith QArith Qabs.
 Import ListNotations.
 Local Open Scope string_scope.
@@ -244,7 +250,66 @@ Proof.
 Qed.
 Print Assumptions C08_num_error_default.
 
+(* ---- ids: every site of writer.rs that writes an id or a reference (Gen/IdSites.v: 13 definition sites incl. the text-path
+   paths of write_text_path_paths followed through Path::new into write_path, 11 reference sites) writes the prefix exactly
+   once, for EVERY prefix and EVERY id *)
+Theorem C08_id_prefixed_once : forall lab k toks,
+  In (lab, k, toks) id_sites -> forall prefix id, emit prefix id toks = expected k prefix id.
+Proof. exact id_sites_prefixed_once. Qed.
+Print Assumptions C08_id_prefixed_once.
+
+(* ... so what the parser extracts from any written reference is what any definition site writes for the same tree id *)
+Theorem C08_written_refs_resolve : forall lr kr tr ld td,
+  In (lr, kr, tr) id_sites -> kr <> SDef -> In (ld, SDef, td) id_sites ->
+  forall prefix id, clean (prefix ++ id) = true ->
+  link_target kr (emit prefix id tr) = Some (emit prefix id td).
+Proof. exact refs_resolve. Qed.
+Print Assumptions C08_written_refs_resolve.
+
+Theorem C08_written_href_resolves : forall lr tr ld td,
+  In (lr, SHref, tr) id_sites -> In (ld, SDef, td) id_sites ->
+  forall prefix id, parse_href (emit prefix id tr) = Some (emit prefix id td).
+Proof. exact href_resolves. Qed.
+Print Assumptions C08_written_href_resolves.
+
+(* ... and distinct tree ids stay distinct *)
+Theorem C08_written_ids_injective : forall l1 t1 l2 t2,
+  In (l1, SDef, t1) id_sites -> In (l2, SDef, t2) id_sites ->
+  forall prefix i j, emit prefix i t1 = emit prefix j t2 -> i = j.
+Proof. exact written_ids_injective. Qed.
+Print Assumptions C08_written_ids_injective.
+
+Theorem C08_id_without_prefix : forall id, emit "" id id_attr_no_prefix = id.
+Proof. exact no_prefix_branch. Qed.
+Print Assumptions C08_id_without_prefix.
+
+(* ---- conditionally written numeric attributes (Gen/ElisionTables.v: startOffset, opacity, stop-/fill-/stroke-opacity,
+   stroke-dashoffset, stroke-miterlimit, stroke-width, font-weight, letter-/word-spacing): whenever the writer's condition
+   (as written in writer.rs) lets the attribute out, the value is - within the tolerance of the writer's own comparison -
+   the one the PARSER assumes for the absent attribute, for EVERY value.  A condition with an extra conjunct
+   (`linejoin == Miter && ..`, seeded C08-13) has no `written` case and fails here. *)
+Theorem C08_elision_numeric_sound : forall name c d v,
+  In (name, c, d) elision_sites -> written c v = false ->
+  exists d0, d = Some d0 /\ (Qabs (v - d0) <= tol c)%Q.
+Proof. exact elision_numeric_sound. Qed.
+Print Assumptions C08_elision_numeric_sound.
+
+Theorem C08_elision_exact_sound : forall name c0 d v,
+  In (name, CNe c0, d) elision_sites -> written (CNe c0) v = false -> exists d0, d = Some d0 /\ (v == d0)%Q.
+Proof. exact elision_exact_sound. Qed.
+Print Assumptions C08_elision_exact_sound.
+
 (* ---- non-vacuity *)
 Example C08_nv_linejoin : write_LineJoin LineJoin_Bevel = Some "bevel" /\ parse_LineJoin "bevel" = Some LineJoin_Bevel /\
                           write_LineJoin LineJoin_Miter = None /\ default_LineJoin = LineJoin_Miter.
 Proof. repeat split; reflexivity. Qed.
+Example C08_nv_id_sites : (11 <=? length (filter is_def id_sites))%nat = true /\ (11 <=? length (filter (fun s => negb (is_def s)) id_sites))%nat = true /\
+                          expected SDef "doc1-" "curve" = "doc1-curve" /\ link_target SHref (expected SHref "doc1-" "curve") = Some "doc1-curve" /\
+                          link_target SIri (expected SIri "doc1-" "g1") = Some "doc1-g1" /\
+                          emit "doc1-" "curve" [KPrefix; KPrefix; KRaw] <> expected SDef "doc1-" "curve".
+Proof. repeat split; try (vm_compute; reflexivity). vm_compute. discriminate. Qed.
+Example C08_nv_elision : (11 <=? length elision_sites)%nat = true /\
+                         written (CApprox 4 4) 4 = false /\ written (CApprox 4 4) (401 # 100) = true /\ written (CNe 1) (1 # 2) = true /\
+                         written (COther "stroke.linejoin == LineJoin::Miter && !stroke.miterlimit.is_default()") 10 = false /\
+                         (tol (CApprox 4 4) <= 1 # 200000)%Q.
+Proof. repeat split; vm_compute; try reflexivity; discriminate. Qed.
